@@ -30,7 +30,9 @@ RULE = ("stub kernels: 1-3 consecutive event() calls on one kernel object (event
         "Particle objects): {Specialized, Basic, Uniform(+UniformIce), "
         "Layered(+LayeredIce)} x {ARZ, AVZ, ZHS} x {Cylindrical, Rectangular, List, File} x offcone {None,5} x "
         "weight_min {None,0.1,(0.5,0.5)} x interpolation {None,0.1} x writer x trigger {None,fn,dict}, three antennas "
-        "(one above the ice); quick samples the product, thorough enumerates it; non-trivial = at least one signal "
+        "(one above the ice); a viewing-angle sweep 0.5..179.5 degrees (also behind the shower axis) for ZHS / AVZ / ARZ / "
+        "ARVZ; stored values compared with model(angle, distance) -> propagate -> antenna response (rel 1e-9) in the "
+        "sweep and on a sample of the other events; quick samples the product, thorough enumerates it; non-trivial = at least one signal "
         "received; distinct = distinct requests")
 LEVEL_TEXT = ("theorems over all events / antenna sets / component functions of the Lean fold model; interface "
               "theorem by kernel evaluation over the table regenerated from the AST; model tied to kernel.py by an "
@@ -39,7 +41,10 @@ LEVEL_NOTE = ("C10_aligned assumes that propagate delays its input grid by the p
               "every real combination; exceptions other than ValueError from a signal model propagate and are not "
               "modelled; antennas are assumed to be distinct objects that only record what they receive; object identity / "
               "aliasing of the signals and lists handed over is outside the Lean value model and is checked by the "
-              "harness only (mutation and shares_memory probes after every event). No _partial theorem.")
+              "harness only (mutation and shares_memory probes after every event; C10_fresh_objects is the allocation-level "
+              "statement behind them). Shipped Askaryan models are expected to raise ValueError only for |angle| > 180 "
+              "degrees (their documented check); any other ValueError that the kernel would turn into an empty signal is "
+              "reported. No _partial theorem.")
 CHECKER_MODULES = ["PyrexVerif.Proofs.Kernel", "PyrexVerif.Gen.Interfaces", "PyrexVerif.D.Kernel"]
 EXTRACTORS = ["interfaces"]
 ASSUMPTIONS = ["the signature reader (harness/extract/interfaces.py) reflects Python's argument binding "
@@ -590,7 +595,9 @@ class RealSetup:
             "lay": (LayeredRayTracer, LayeredIce([UniformIce(1.5, valid_range=(-200, 0), index_above=1),
                                                   UniformIce(1.7, valid_range=(-3000, -200), index_above=None)])),
         }
-        self.signals = {"ARZ": ARZAskaryanSignal, "AVZ": AVZAskaryanSignal, "ZHS": ZHSAskaryanSignal}
+        from pyrex.askaryan import ARVZAskaryanSignal
+        self.signals = {"ARZ": ARZAskaryanSignal, "AVZ": AVZAskaryanSignal, "ZHS": ZHSAskaryanSignal,
+                        "ARVZ": ARVZAskaryanSignal}
         self.times = np.linspace(-20e-9, 80e-9, 128, endpoint=False)
         self.tmp = tempfile.mkdtemp(prefix="c10_")
         self.file = None
@@ -623,10 +630,26 @@ class RealSetup:
             evs.append(pyrex.Event(ps))
         return evs
 
-    def generator(self, kind, rng, light=False):
+    def angle_event(self, alpha_deg, tracer, ice):
+        """one particle whose shower axis makes the angle `alpha` with the first ray solution towards
+        antenna 0: viewing angles over the whole range 0..180 degrees, also behind the shower axis"""
+        import pyrex
+        np = _np()
+        vertex = np.array([120.0, 40.0, -400.0])
+        e = np.array(list(tracer(vertex, (0, 0, -100), ice_model=ice).solutions)[0].emitted_direction, dtype=float)
+        u = np.cross(e, [0.0, 0.0, 1.0])
+        u = u / np.linalg.norm(u)
+        a = np.radians(alpha_deg)
+        p = pyrex.Particle("nu_e", vertex=vertex, direction=np.cos(a) * e + np.sin(a) * u, energy=1e9,
+                           interaction_type="cc")
+        return pyrex.Event([p])
+
+    def generator(self, kind, rng, light=False, tracer=None, ice=None):
         np = _np()
         from pyrex.generation import CylindricalGenerator, RectangularGenerator, ListGenerator, FileGenerator
         from pyrex.io import File
+        if kind.startswith("ang:"):
+            return ListGenerator([self.angle_event(float(kind[4:]), tracer, ice)])
         if kind == "cyl":
             return CylindricalGenerator(300, 900, 1e9)
         if kind == "rect":
@@ -678,6 +701,22 @@ def known_probes(run):
 
 
 COMBOS = None
+SWEEP_ANGLES = [0.5, 20.0, 55.0, 70.0, 89.0, 91.0, 93.0, 120.0, 150.0, 179.5]
+
+
+def angle_combos(rng, everything):
+    """viewing-angle sweep 0..180 degrees (also behind the shower axis) for every shipped Askaryan model"""
+    out = []
+    for sname in ("ZHS", "AVZ", "ARZ", "ARVZ"):
+        if everything:
+            picks = [(a, o, t) for a in SWEEP_ANGLES for o in (None, 40) for t in ("spec", "uni")]
+        else:
+            picks = [(rng.choice([a for a in SWEEP_ANGLES if a < 90]), rng.choice([None, 40]), rng.choice(["spec", "uni"])),
+                     (rng.choice([a for a in SWEEP_ANGLES if a > 90]), None, rng.choice(["spec", "uni"])),
+                     (rng.choice([91.0, 93.0]), 40, "spec")]
+        for a, o, t in picks:
+            out.append((t, sname, "ang:%s" % a, o, None, 0.1, True, "N"))
+    return out
 
 
 def all_combos():
@@ -731,7 +770,7 @@ def run_real(setup, combo, rng, nev=2):
             pass
     ants = [RecAntenna((0, 0, -100)), RecAntenna((15, 5, -160)), RecAntenna((0, 0, 40))]
     np.random.seed(rng.randrange(2 ** 31))
-    gen = setup.generator(gname, rng, light=offc is None)
+    gen = setup.generator(gname, rng, light=offc is None, tracer=tracer, ice=ice)
     writer = Writer() if has_writer else None
     f1 = lambda d: len(d[0].signals) >= 1            # the model's `G 0 1`
     f2 = lambda d: len(d[1].signals) >= 1            # the model's `G 1 1`
@@ -773,14 +812,11 @@ def run_real(setup, combo, rng, nev=2):
                 for j, path in enumerate(sols):
                     pathid = 1000 * pid + 100 * i + j
                     psi = float(np.arccos(np.vdot(p.direction, path.emitted_direction)))
-                    ok = True
-                    if abs(psi - theta_c) <= offmax:
-                        try:
-                            sm(times=setup.times, particle=p, viewing_angle=psi, viewing_distance=path.path_length,
-                               ice_model=ice)
-                        except ValueError:
-                            ok = False
-                    sol_of[pathid] = (pid, i, path)
+                    # every shipped Askaryan model documents a single ValueError: |angle| > 180 degrees.  A viewing
+                    # angle is an arccos, so inside the cut the kernel must deliver the model's pulse - the
+                    # expectation is NOT taken from calling the (possibly changed) model
+                    ok = 0.0 <= psi <= float(np.pi)
+                    sol_of[pathid] = (pid, i, path, p, psi)
                     s += " %d %s %s %d" % (pathid, frs(path.tof), frs(psi), ok)
             parts.append(s)
         req = "ev 3 %s %s %s %s %d %d %d %d %d %s" % (grid_s(setup.times), wms, frs(offmax), ts_,
@@ -812,12 +848,13 @@ def run_real(setup, combo, rng, nev=2):
                 alias.append("signals share their times array")
                 break
         if objs:
+            orig_times = np.array(objs[0].times)
             objs[0].times += 1.0                       # mutate one stored signal in place ...
             flat = [t for st in stored for t in st]
             if any(not np.array_equal(s.times, t) for s, t in list(zip(objs, flat))[1:]) \
                     or any(not np.array_equal(s.times, snap) for s, snap in handed):
                 alias.append("mutating one received signal changes another")          # ... nothing else may move
-            objs[0].times -= 1.0
+            objs[0].times = orig_times                 # exact restore ((t+1)-1 is not t in floating point)
         if not np.array_equal(kern.signal_times, times0):
             alias.append("signal_times changed")
         wcall = None
@@ -830,11 +867,74 @@ def run_real(setup, combo, rng, nev=2):
                 if len({id(l) for l in raw}) != len(raw) or (k > 0 and any(
                         l is m for l in raw for m in writer.calls[k - 1]["raw_paths"])):
                     alias.append("ray_paths lists are shared")
-        out.append((req, dict(res=res, ev=ev, particles=particles, recv=recv, has_writer=writer is not None,
+        # values of what the antennas stored, for the quantitative oracle (always in the viewing-angle sweep,
+        # otherwise on a sample of the cheap events: every pulse costs a deep copy in Antenna.receive)
+        npulse = sum(1 for r in recv for x in r if x[0] == "P")
+        stored_vals = None
+        if gname.startswith("ang:") or (npulse <= 4 and rng.random() < 0.4):
+            stored_vals = [[np.array(s.values, dtype=float) for s in a.signals] for a in ants]
+        out.append((req, dict(stored_vals=stored_vals, ctx=(sm, interp, ice, [tuple(a.position) for a in ants]),
+                              res=res, ev=ev, particles=particles, recv=recv, has_writer=writer is not None,
                               wcall=wcall, nsig=[len(a.signals) for a in ants], stored=stored, sol_of=sol_of,
                               seen=seen, after=after, e1=f1(ants), e2=f2(ants), tkind=tkind,
                               gen_ok=kern._gen_count == after, alias=alias, index=k)))
     return out
+
+
+def expected_values(np, setup, ctx, i, p, path, psi):
+    """independent evaluation of what antenna `i` must store for (particle, ray solution): the configured
+    model's pulse at (viewing angle, path length) -> path.propagate -> antenna response.
+    -> (values, None) or (None, complaint)"""
+    import pyrex
+    sm, interp, ice, positions = ctx
+    try:
+        pulse = sm(times=setup.times, particle=p, viewing_angle=psi, viewing_distance=path.path_length,
+                   ice_model=ice)
+    except ValueError as e:
+        return None, ("%s raises ValueError('%s') at viewing angle %.2f deg, inside its documented domain [0, 180] - "
+                      "the kernel turns that into a silently empty signal" % (sm.__name__, str(e)[:60], np.degrees(psi)))
+    pulses, pols = path.propagate(signal=pulse, polarization=nu_pol(np, p.direction, path.emitted_direction),
+                                  attenuation_interpolation=interp)
+    fa = pyrex.Antenna(position=positions[i], noisy=False)
+    fa.receive(pulses, direction=path.received_direction, polarization=pols)
+    return np.array(fa.signals[0].values, dtype=float), None
+
+
+def values_differ(np, exp, got):
+    scale = float(np.max(np.abs(exp))) if len(exp) else 0.0
+    if len(exp) != len(got) or not np.all(np.abs(exp - got) <= 1e-9 * scale + 1e-300):
+        return "max |diff| %.3e, scale %.3e" % (float(np.max(np.abs(exp - got))) if len(exp) == len(got) else -1.0, scale)
+    return None
+
+
+def check_values(np, segs, obs, setup):
+    import pyrex
+    sm, interp, ice, positions = obs["ctx"]
+    for i in range(3):
+        toks = segs[4 + i].split()
+        n = int(toks[1])
+        pos = 2
+        for j in range(n):
+            kind = toks[pos]
+            pos += 1
+            got = obs["stored_vals"][i][j]
+            if kind == "P":
+                pathid = int(toks[pos + 1])
+                pos += 2
+                _, _, path, p, psi = obs["sol_of"][pathid]
+                exp, complaint = expected_values(np, setup, obs["ctx"], i, p, path, psi)
+                if complaint:
+                    return "antenna %d signal %d: %s" % (i, j, complaint)
+                d = values_differ(np, exp, got)
+                if d:
+                    return ("antenna %d signal %d: stored values differ from %s(angle=%.2f deg, distance=%.1f m) "
+                            "passed through propagate (%s)" % (i, j, sm.__name__, np.degrees(psi), path.path_length, d))
+            else:
+                if np.any(got != 0):
+                    return "antenna %d signal %d: a cut solution was stored with non-zero values" % (i, j)
+            m = int(toks[pos])
+            pos += 1 + m
+    return None
 
 
 def same_path(np, p, q):
@@ -905,6 +1005,12 @@ def compare_real(reply, obs, setup):
                 d = obs["recv"][i][j][1][0]
                 if not np.allclose(d, obs["sol_of"][pathid][2].received_direction, rtol=1e-9, atol=1e-12):
                     return "antenna %d signal %d: received with another path's direction" % (i, j)
+    # quantitative: what an antenna stored for a ray solution is the configured model's pulse at that
+    # (viewing angle, path length), passed through that path's propagate and the antenna response
+    if obs["stored_vals"] is not None:
+        why = check_values(np, segs, obs, setup)
+        if why:
+            return why
     # writer plumbing
     wseg = segs[3]
     if w is None:
@@ -994,6 +1100,7 @@ def correspondence(run):
         for b in base:
             if b not in have:
                 chosen.append(run.rng.choice([c for c in combos if c[:3] == b]))
+    chosen = list(chosen) + angle_combos(run.rng, run.thorough())
     setup = RealSetup(run.seed)
     try:
         reqs, obss, cs = [], [], []
@@ -1130,6 +1237,8 @@ def search(run, deep):
     try:
         combos = all_combos()
         chosen = run.rng.sample(combos, 20 if not deep else 60)   # the correspondence run enumerates the product
+        sweep = angle_combos(run.rng, False)
+        chosen = chosen + (sweep if deep else run.rng.sample(sweep, 6))
         for combo in chosen:
             why = real_oracle(setup, combo, run.rng)
             run.case(("real-oracle", combo, run.rng.random()))
@@ -1162,7 +1271,7 @@ def real_oracle(setup, combo, rng):
         if obs["has_writer"] and obs["wcall"] is None:
             return "event %d: writer not called once per event" % k
         for i in range(3):
-            exp = []
+            exp, owners = [], []
             for p in obs["particles"]:
                 if isinstance(wmin, tuple):
                     if (p.survival_weight is not None and p.survival_weight < wmin[0]) or \
@@ -1173,12 +1282,34 @@ def real_oracle(setup, combo, rng):
                 rt = tracer(p.vertex, ant_pos[i], ice_model=ice)
                 if rt.exists:
                     exp += list(rt.solutions)
+                    owners += [p] * len(list(rt.solutions))
             if obs["nsig"][i] != len(exp):
                 return "event %d: antenna %d received %d signals for %d ray solutions" % (k, i, obs["nsig"][i], len(exp))
             for t, got, path in zip(obs["stored"][i], obs["recv"][i], exp):
                 if not np.allclose(t, setup.times + path.tof, rtol=1e-12, atol=0) \
                         or not np.allclose(got[2], setup.times + path.tof, rtol=1e-12, atol=0):
                     return "event %d: antenna %d: a signal is not on signal_times + tof of its ray solution" % (k, i)
+            # the off-cone cut - and nothing else - replaces a pulse by an empty signal; inside the cut the
+            # stored signal is the configured model's pulse for that viewing angle (0..180 degrees)
+            offmax = float(np.radians(180 if combo[3] is None else combo[3]))
+            for j, (got, path, p) in enumerate(zip(obs["recv"][i], exp, owners)):
+                psi = float(np.arccos(np.vdot(p.direction, path.emitted_direction)))
+                theta_c = float(np.arccos(1 / ice.index(p.vertex[2])))
+                inside = abs(psi - theta_c) <= offmax
+                if abs(abs(psi - theta_c) - offmax) < 1e-9:
+                    continue
+                if (got[0] == "P") != inside:
+                    return ("event %d: antenna %d solution %d: viewing angle %.2f deg is %s the off-cone cut but the "
+                            "antenna was handed %s signal" % (k, i, j, np.degrees(psi), "inside" if inside else "outside",
+                                                               "an empty" if got[0] == "E" else "a pulse"))
+                if obs["stored_vals"] is not None and inside:
+                    want, complaint = expected_values(np, setup, obs["ctx"], i, p, path, psi)
+                    if complaint:
+                        return "event %d: antenna %d solution %d: %s" % (k, i, j, complaint)
+                    d = values_differ(np, want, obs["stored_vals"][i][j])
+                    if d:
+                        return ("event %d: antenna %d solution %d: stored values are not the model's pulse at %.2f deg "
+                                "passed through propagate (%s)" % (k, i, j, np.degrees(psi), d))
             if obs["wcall"] is not None:
                 w = obs["wcall"]
                 if len(w["ray_paths"][i]) != len(exp) or len(w["polarizations"][i]) != len(exp):
